@@ -18,8 +18,33 @@ def main():
     if a.prop == 'selftest':
         from . import selftest
         return selftest.main()
+    _guards(a.prop, a.tier)
     from .driver import run_property
     return run_property(a.prop, a.tier, a.seed, a.only)
+
+
+def _guards(prop, tier):
+    """a check must end: (1) the in-process z3 may use at most 12 GB (it raises, the query counts as undecided); (2) a watchdog thread
+    ends the process with exit 2 (undecided - never a violation) once the wall-clock budget of the tier is used up.  The budget is
+    several times the slowest check on the unchanged tree; PYVC_BUDGET_S overrides it."""
+    import threading
+    import time
+    try:
+        import z3
+        z3.set_param('memory_max_size', int(os.environ.get('PYVC_Z3_MEMORY_MB', '12000')))
+    except Exception:
+        pass
+    budget = float(os.environ.get('PYVC_BUDGET_S', '2700' if tier == 'quick' else '10800'))
+
+    def watch():
+        time.sleep(budget)
+        try:
+            sys.stdout.write('  UNDECIDED: {"function": "*", "reason": "the checker used up its wall-clock budget of %d s (a solver call did not return)"}\n' % budget)
+            sys.stdout.write('%s tier=%s obligations=? discharged=? undecided=1 violations=0 (aborted by the watchdog)\n' % (prop, tier))
+            sys.stdout.flush()
+        finally:
+            os._exit(2)
+    threading.Thread(target=watch, daemon=True).start()
 
 
 if __name__ == '__main__':
